@@ -198,7 +198,7 @@ func c25SubVectors(n, nt int, rich bool) [][]uint8 {
 }
 
 func c25Blocks(thorough bool) ([]c25Block, string) {
-	maxN, richN, total, totalAtMax := 3, 3, 4, 4
+	maxN, richN, total, totalAtMax := 3, 2, 4, 4
 	conflictTopics, conflictTotal := 2, 3
 	if thorough {
 		maxN, richN, total, totalAtMax = 4, 3, 6, 4
@@ -322,7 +322,13 @@ func TestVerifC25(t *testing.T) {
 					}
 					if v != nil {
 						kc := &c25Case{Assignor: b.assignor, Away: b.away, Case: c.Clone()}
-						coll.Add("kfake-"+b.assignor+":"+v.Key, v.What, balenum.CaseSize(c), func() any {
+						size := balenum.CaseSize(c)
+						for _, sb := range c.Subs {
+							if sb&c25RegexBit != 0 {
+								size += 20
+							}
+						}
+						coll.Add("kfake-"+b.assignor+":"+v.Key, v.What, size, func() any {
 							return c25Artefact{"kfake-" + b.assignor, kc, c25Describe(kc), balenum.FormatPlan(plan)}
 						})
 					}
